@@ -88,6 +88,12 @@ pub trait Space: Send + Sync {
 }
 
 pub const MAX_FAILS_PER_BLOCK: usize = 12;
+
+/// Failures collected per block (the total is always counted); raised by the triage helper.
+pub fn max_fails_per_block() -> usize {
+    static N: std::sync::OnceLock<usize> = std::sync::OnceLock::new();
+    *N.get_or_init(|| std::env::var("VERIF_MAX_FAILS").ok().and_then(|s| s.parse().ok()).unwrap_or(MAX_FAILS_PER_BLOCK))
+}
 pub const MAX_HASHES: usize = 400_000;
 
 /// Per-block accumulator handed to `Space::run_block`.
@@ -217,7 +223,7 @@ impl<'a> Ctx<'a> {
             }
             return;
         }
-        if self.failures.len() < MAX_FAILS_PER_BLOCK {
+        if self.failures.len() < max_fails_per_block() {
             self.failures.push(f);
         }
     }
